@@ -113,13 +113,22 @@ func init() {
 				st.be.onGate = func() { fileGateWait(a[2]) }
 				st.be.reached, st.be.proceed = make(chan struct{}), make(chan struct{})
 				close(st.be.proceed) // the file gate does the waiting
-				st.be.armed.Store(true)
+				if d == 0 {
+					st.be.armedGet.Store(true)
+				} else {
+					st.be.armed.Store(true)
+				}
 			}
 			if a[3] != "-" {
 				st.be.onEnter = func() { os.WriteFile(a[3]+".entered", nil, 0o600) }
 				st.be.onAcquire = func() { os.WriteFile(a[3], nil, 0o600) }
 			}
-			_, err := st.ring.AddKey(symDescription(material(d)))
+			var err error
+			if d == 0 {
+				_, err = st.ks.OpenKeyRing(lockLifeRing) // a reader: RLock, Get, RUnlock
+			} else {
+				_, err = st.ring.AddKey(symDescription(material(d)))
+			}
 			st.be.onGate, st.be.onEnter, st.be.onAcquire = nil, nil, nil
 			if err != nil {
 				return "res 0"
@@ -363,8 +372,11 @@ func runLockLifeProcs(hist, sa, ua string, maxWait time.Duration) lifeResult {
 	if !ok {
 		return fail("ring before the race unreadable")
 	}
-	w.register(dS, material(dS))
-	w.register(dU, material(dU))
+	for _, d := range []int{dS, dU} {
+		if d != 0 {
+			w.register(d, material(d))
+		}
+	}
 
 	res := lifeResult{}
 	gate := filepath.Join(tmp, "gate")
